@@ -544,13 +544,16 @@ func c18Run(s *Shard) {
 	sampled := false
 	for _, method := range allMethods {
 		for _, subset := range []bool{false, true} {
-			for variant := 0; variant < 6; variant++ { // observed range, declared range, c1 strictly negative, types left out, weights at 1e-10 scale, never-considered alternatives beyond both ends
+			for variant := 0; variant < 8; variant++ { // observed range, declared range, c1 strictly negative, types left out, weights at 1e-10 scale, never-considered alternatives beyond both ends, c3 single-valued, c3 single-valued and c1 zero everywhere
 				root := rootRequest(method, subset, variant == 1)
 				if variant == 2 {
 					root = negativeVariant(root)
 				}
 				if variant == 5 {
 					root = wideVariant(root)
+				}
+				if variant >= 6 {
+					root = degenerateVariant(root, variant == 7)
 				}
 				if variant == 4 {
 					switch method {
